@@ -261,3 +261,15 @@ Atomic<'static, ItemType, BUFFER_SIZE, MAX_STREAMS> {
     type ItemType            = ItemType;
     type DerivedItemType     = Arc<ItemType>;
 }
+
+
+/// verification only: access to the streams bookkeeping of this channel
+#[cfg(feature = "verif")]
+impl<'a, ItemType:          Send + Sync + Debug + Default + 'a,
+         const BUFFER_SIZE: usize,
+         const MAX_STREAMS: usize>
+Atomic<'a, ItemType, BUFFER_SIZE, MAX_STREAMS> {
+    pub fn verif_streams_manager(&self) -> &StreamsManagerBase<MAX_STREAMS> {
+        &self.streams_manager
+    }
+}
